@@ -25,14 +25,18 @@ pub fn run(ctx: &Ctx) -> bool {
     match ctx.id.as_str() {
         "C01" => {
             c01::run(ctx);
-            c01::run_same_flow(ctx)
+            c01::run_same_flow(ctx);
+            c01::run_hostile_heads(ctx)
         }
         "C02" => c02::run(ctx),
         "C03" => c03::run(ctx),
         "C04" => c04::run(ctx),
         "C05" => c05::run(ctx),
         "C06" => c06::run(ctx),
-        "C07" => c07::run(ctx),
+        "C07" => {
+            c07::run(ctx);
+            c07::run_pool_isolation(ctx)
+        }
         "C08" => {
             c08::run(ctx);
             c08::run_pool_variant(ctx);
